@@ -36,11 +36,12 @@ Theorem C38_pred : forall res num_chunks ins out,
 Proof. exact pred_holds. Qed.
 Print Assumptions C38_pred.
 
-(* Termination: whenever the batch size len(chks)/numChunks is at least 1, downsampleAggr
-   returns (the loop and the counter iterator inside every part terminate), and then the
-   predicate holds: total correctness on the property's domain. *)
+(* Termination, unconditionally (with C38-fix.patch: batchSize := max(len(chks)/numChunks, 1)):
+   for every chunk list, resolution and EVERY value of targetChunkCount, downsampleAggr
+   returns (the loop and the counter iterator inside every part terminate), and on valid
+   inputs the predicate holds: total correctness. *)
 Theorem C38_terminates : forall res num_chunks ins,
-  (1 <= length ins / num_chunks)%nat -> exists out, downsample_aggr_m res num_chunks ins = Some out.
+  exists out, downsample_aggr_m res num_chunks ins = Some out.
 Proof. exact aggr_terminates. Qed.
 Print Assumptions C38_terminates.
 
@@ -50,22 +51,41 @@ Theorem C38_pred_total : forall res num_chunks ins,
 Proof. exact pred_total. Qed.
 Print Assumptions C38_pred_total.
 
-(* Planned as "batch size 0 returns the invalid-range error" (DESIGN C38_error_not_hang);
-   the faithful model REFUTES that: with more target chunks than input chunks
-   (len(chks)/numChunks = 0) downsampleAggrLoop takes an empty part, which yields a chunk
-   with mint = maxt = 0 (not MaxInt64/MinInt64), so no error is raised and the same
-   chunks are processed again — the loop never ends, whatever the fuel.  (Outside the
-   property's domain: targetChunkCount never exceeds the chunk count on data produced
-   by DownsampleRaw; the harness refuses to run such inputs.) *)
-Theorem C38_zero_batch_error_refuted : forall res fuel chks,
+(* The code AS FOUND computed batchSize := len(chks)/numChunks.  Planned (DESIGN) as "batch
+   size 0 returns the invalid-range error"; the faithful model REFUTES that: with more
+   target chunks than input chunks downsampleAggrLoop takes an empty part, which yields a
+   chunk with mint = maxt = 0 (not MaxInt64/MinInt64), so no error is raised and the same
+   chunks are processed again — the loop never ends, whatever the fuel (observed on the real
+   code: corpus/C38/more_targets_than_chunks.json hangs on the tree without the fix). *)
+Theorem C38_unclamped_zero_batch_refuted : forall res fuel chks,
   chks <> [] -> aggr_loop cw fuel res 0 chks = None.
 Proof. exact zero_batch_spins. Qed.
-Print Assumptions C38_zero_batch_error_refuted.
+Print Assumptions C38_unclamped_zero_batch_refuted.
 
-(* Tie T for the batch size of downsampleAggrLoop: the model's len / numChunks is the
+(* ... but on the property's domain the clamp changes nothing: for 5m chunks as DownsampleRaw
+   writes them (at most 706 rows each) and a 5m -> 1h target chunk count within the bound the
+   heuristic guarantees (both checked on the implementation's values in corr_ok), there are
+   never more target chunks than chunks.  So blocks written by Thanos never hit the hang;
+   only foreign / hand-made 5m blocks with very large chunks could. *)
+Theorem C38_clamp_noop_in_domain : forall nc (ins : list achunk),
+  ins <> [] -> (1 <= nc)%nat -> domain_ok nc ins = true ->
+  (nc <= length ins)%nat /\ Nat.max (length ins / nc) 1 = (length ins / nc)%nat.
+Proof. exact clamp_noop. Qed.
+Print Assumptions C38_clamp_noop_in_domain.
+
+(* the integer loop of targetChunkCount (`for x = 1; expSamples/x > 140; x++ {}`) stops at
+   the least x with expSamples/x <= 140, i.e. expSamples/141 + 1: the closed form used in
+   domain_ok *)
+Theorem C38_target_loop_closed_form : forall e, 0 <= e ->
+  let x := e / 141 + 1 in
+  Z.quot e x <= 140 /\ forall y, 1 <= y < x -> 140 < Z.quot e y.
+Proof. exact target_loop_closed_form. Qed.
+Print Assumptions C38_target_loop_closed_form.
+
+(* Tie T for the batch size of downsampleAggrLoop: the model's max(len / numChunks, 1) is the
    expression assigned to batchSize in the Go source (translated into Gen/C38.v on every run). *)
 Theorem C38_batch_size_source : forall len nc,
-  Z.to_nat (aggr_batch_size (Z.of_nat len) (Z.of_nat nc)) = (len / nc)%nat.
+  Z.to_nat (aggr_batch_size (Z.of_nat len) (Z.of_nat nc)) = Nat.max (len / nc) 1.
 Proof. exact aggr_batch_size_model. Qed.
 Print Assumptions C38_batch_size_source.
 
